@@ -18,4 +18,4 @@ go build ./... || { echo "does not compile"; exit 2; }
 echo "--- demo WITH patch:"; run_demo | tail -1
 rm -f "$dest"/zz_demo*
 echo "--- suite WITH patch:"
-go test -count=1 $pkgs 2>&1 | grep -E '^(ok|FAIL|---|\s+--- FAIL)' | grep -v -E '#13(17|18|19|20|21)' | head -20
+go test -count=1 -p 4 -parallel 4 -skip 'TestParseConfirm|TestKillSignal|TestKillTimeout' $pkgs 2>&1 | grep -E '^(ok|FAIL|---|\s+--- FAIL)' | grep -v -E '#13(17|18|19|20|21)' | head -20
